@@ -501,8 +501,78 @@ def job_tilted(cfg):
     return res
 
 
+def job_inplane(cfg):
+    """2-D transversely isotropic / orthotropic law whose material axes are rotated IN the plane by a symbolic angle (c, s):
+    the compliance (plane stress) / stiffness (plane strain) equals the in-plane block of the tensor-rotated 3-D matrices of the
+    axis-aligned law, and C S = I, for all angles."""
+    from EasyFEA import Models
+    from engine import oblig
+
+    res = JobResult(cfg)
+    c = new_context()
+    facade.install()
+    law, ps = cfg["law"], cfg["planeStress"]
+    th, cs, sn = oblig.angle("theta")
+    res.symbols = 2
+    label = f"{law} dim=2 planeStress={ps} axes rotated in the plane by a symbolic angle"
+    res.functions |= {"_Elastic._Apply_basis_transformation", "Models._utils.Get_Pmat", "Models._utils.Apply_Pmat", "TransverselyIsotropic._Behavior", "Orthotropic._Behavior"}
+
+    def make(dim, a1, a2, planeStress=True):
+        if law == "trans":
+            return Models.Elastic.TransverselyIsotropic(dim, 300.0, 120.0, 70.0, 0.2, 0.35, axis_l=a1, axis_t=a2, planeStress=planeStress)
+        return Models.Elastic.Orthotropic(dim, 300.0, 150.0, 100.0, 40.0, 50.0, 60.0, 0.2, 0.25, 0.3, axis_1=a1, axis_2=a2, planeStress=planeStress)
+
+    ref = make(3, (1, 0, 0), (0, 1, 0))
+    C3, S3 = ref.C, ref.S  # concrete, material axes = global axes
+    a1 = np.array([cs, sn, 0], dtype=object)
+    a2 = np.array([-sn, cs, 0], dtype=object)
+    a3 = np.array([0, 0, 1], dtype=object)
+    mark = c.mark()
+    facade.OPAQUE_INV_FROM = None
+    linsolve.CRAMER_FORM[0] = True  # inverse = adjugate / det: the pivots of the rotated compliance block vanish for some angles, det never does
+    with facade.symbolic():
+        m2 = make(2, a1.copy(), a2.copy(), ps)
+        C2, S2 = m2.C, m2.S
+    pcs = [p_ for p_ in c.pc_since(mark) if not any(c.kind.get(v) == "aux" for v in p_.vars())]
+    res.paths, res.path_conditions = 1, len(pcs)
+    Cq = np.array([[Fraction(float(x)) for x in row] for row in C3], dtype=object)
+    Sq = np.array([[Fraction(float(x)) for x in row] for row in S3], dtype=object)
+    Crot = rot4_oracle(Cq, a1, a2, a3)
+    Srot = rot4_oracle(Sq, a1, a2, a3)
+
+    def replay(env):
+        import math
+
+        cf, sf = fval(c, env, cs), fval(c, env, sn)
+        n = math.hypot(cf, sf)
+        cf, sf = cf / n, sf / n
+        A = make(2, (cf, sf, 0), (-sf, cf, 0), ps)
+        Q = np.array([[cf, -sf, 0], [sf, cf, 0], [0, 0, 1]])
+        ref_t = rot4_oracle(np.array(Sq if ps else Cq, dtype=object), np.array([cf, sf, 0]), np.array([-sf, cf, 0]), np.array([0, 0, 1.0]))
+        want = np.array(ref_t, dtype=float)[np.ix_(IDX2, IDX2)]
+        got = A.S if ps else A.C
+        err = float(np.abs(got - want).max() / np.abs(want).max())
+        inv_err = float(np.abs(A.C @ A.S - np.eye(3)).max())
+        return err > 1e-9 or inv_err > 1e-9, {"angle_deg": math.degrees(math.atan2(sf, cf)), "relative_difference_with_tensor_rotated_law": err, "C_S_minus_I": inv_err}
+
+    if ps:
+        identity_check(res, S2, Srot[np.ix_(IDX2, IDX2)], pcs, f"{label}: S_2D = in-plane block of the tensor-rotated 3-D compliance", replay, tol=TOL * Fraction(1, 100), key=f"{label} rotation")
+        # the 2-D stiffness is the inverse of that block:  C_2D . S_oracle = I
+        prod = facade._matmul(np.asarray(C2, dtype=object), np.asarray(Srot[np.ix_(IDX2, IDX2)], dtype=object))
+        identity_check(res, prod, np.eye(3, dtype=int).astype(object), pcs, f"{label}: C_2D . (rotated compliance block) = I", replay, tol=TOL * 100, key=f"{label} stiffness")
+    else:
+        identity_check(res, C2, Crot[np.ix_(IDX2, IDX2)], pcs, f"{label}: C_2D = in-plane block of the tensor-rotated 3-D stiffness", replay, tol=TOL * 1000, key=f"{label} rotation")
+        prod = facade._matmul(np.asarray(Crot[np.ix_(IDX2, IDX2)], dtype=object), np.asarray(S2, dtype=object))
+        identity_check(res, prod, np.eye(3, dtype=int).astype(object), pcs, f"{label}: (rotated stiffness block) . S_2D = I", replay, tol=TOL * 100, key=f"{label} compliance")
+    res.samples.append({"config": label, "obligation": "for all angles (c^2 + s^2 = 1): the 2-D law with in-plane rotated axes equals the in-plane reduction of the tensor-rotated 3-D law (tolerance)"})
+    o = prove_abs_le(as_sym(np.asarray(S2 if ps else C2, dtype=object)[0, 0]) - as_sym((Srot if ps else Crot)[1, 1]), TOL, pcs, "twin")
+    res.twin(f"{label} twin", o.status == "cex")
+    res.stubs |= facade.USED_STUBS
+    return res
+
+
 def job(cfg):
-    return {"tilted": job_tilted, "iso": job_iso, "trans": job_trans, "ortho": job_ortho, "frame": job_frame, "pmat": job_pmat_unnormalised, "notation": job_notation}[cfg["kind"]](cfg)
+    return {"tilted": job_tilted, "inplane": job_inplane, "iso": job_iso, "trans": job_trans, "ortho": job_ortho, "frame": job_frame, "pmat": job_pmat_unnormalised, "notation": job_notation}[cfg["kind"]](cfg)
 
 
 def main():
@@ -524,6 +594,9 @@ def main():
         for ps in (True, False):
             for ax in (tilted if tier == "thorough" else tilted[:1]):
                 configs.append({"kind": "tilted", "law": law, "planeStress": ps, "axes": ax})
+    for law in ("trans", "ortho"):
+        for ps in (True, False):
+            configs.append({"kind": "inplane", "law": law, "planeStress": ps})
     results = harness.run_jobs(job, configs)
     harness.finish(
         PID, results, t0=t0,
